@@ -78,8 +78,24 @@ func VerifCliRun() {
 	c := vcCases[verifnd.Choice(len(vcCases))]
 	workspace := verifnd.Int(0, 1) == 1
 	withInput := verifnd.Int(0, 1) == 1
-	root := verifnd.VFSRoot()
+	top := verifnd.VFSRoot()
 	defer verifnd.VFSCleanup()
+	// the workspace directory is named as it is given: a name with characters that mean something
+	// to a pattern matcher is still that directory (and not a like-named sibling)
+	root := top
+	switch verifnd.Choice(3) {
+	case 1:
+		root = top + "/rules[2]"
+		verifnd.VFSMkdir(root)
+		verifnd.VFSMkdir(top + "/rules2")
+		verifnd.VFSWrite(top+"/rules2/"+c.script, "add_key(from_the_wrong_directory, 1)\n")
+		verifnd.Reach("workspace-name-with-brackets")
+	case 2:
+		root = top + "/pipe *?x"
+		verifnd.VFSMkdir(root)
+		verifnd.VFSMkdir(top + "/pipe line")
+		verifnd.VFSWrite(top+"/pipe line/"+c.script, "add_key(from_the_wrong_directory, 1)\n")
+	}
 	for name, text := range c.files {
 		verifnd.VFSWrite(root+"/"+name, text)
 	}
